@@ -1,7 +1,10 @@
 """C20 canonical k-mer arithmetic: generator, oracle (from-scratch packing in Python), search."""
 PROP = "C20"
 AREAS = ["kmer"]
-THEOREMS = ["data_canonical_min"]
+THEOREMS = ["sliding_eq_scratch", "fill_phase", "canonical_is_min", "canonical_strand_symmetric", "dir_flag_iff_le",
+            "left_aligned_le_iff", "rc_kmer_spec", "rc_kmer_involutive", "canonical_kmer_spec",
+            "canonical_kmer_strand_symmetric", "kmers_spec_holds", "non_acgt_restarts", "no_trap_dir_step",
+            "no_trap_rc_step", "insert_no_wrap"]
 RULE = ("cases: feed k syms (Kmer state after inserting syms), rck k v (reverse_complement_kmer/canonical_kmer on a "
         "left-aligned value), enum k contig (enumerate_kmers with non-ACGT resets). exhaustive: all 4^k windows k<=6 (quick) "
         "/ k<=8 (thorough), all sequences <= k+3 for k<=4/5; random k in 1..32 incl. 32. non-trivial = at least k ACGT "
